@@ -44,6 +44,7 @@ BIGNUMS == { <<48>>, <<57,50,50,51,51,55,50,48,51,54,56,53,52,55,55,53,56,48,56>
 NEGNUMS == { <<48>>, <<45,57,50,50,51,51,55,50,48,51,54,56,53,52,55,55,53,56,48,56>>, <<57,50,50,51,51,55,50,48,51,54,56,53,52,55,55,53,56,48,55>> }      \* 0, -2^63, 2^63-1
 NODE2 == Struct(<<Fld(n_a, "elem", List(STR)), Fld(n_b, "elem", List(STR))>>)
 NEST == Struct(<<Fld(n_a, "elem", List(STR))>>)
+SELFNEST == Struct(<<Fld(n_b, "elem", List(STR))>>)      \* an item whose own children carry the item's name
 
 TypeOf(name) ==
     CASE name = "F01" -> Struct(<<Fld(n_one, "attr", STR), Fld(n_two, "attr", NUM)>>)
@@ -68,6 +69,7 @@ TypeOf(name) ==
       [] name = "F27" -> Struct(<<Fld(n_id, "attr", NUM), Fld(n_hashes, "attr", SList(NUM)), Fld(n_size, "elem", NUM), Fld(n_text, "text", NUM)>>)
       [] name = "F28" -> Struct(<<Fld(n_flag, "attr", BOOL), Fld(n_ratio, "attr", FLOAT), Fld(n_ch, "elem", STR), Fld(n_flag, "elem", List(BOOL)), Fld(<<114>>, "elem", FLOAT)>>)
             \* (no $text next to child elements: mixed content is documented only through $value choices)
+      [] name = "F29" -> Struct(<<Fld(n_a, "elem", List(STR)), Fld(n_b, "elem", List(SELFNEST)), Fld(n_d, "elem", List(NUM))>>)
       [] name = "H01" -> Struct(<<Fld(n_m, "elem", [t |-> "map"])>>)
       [] OTHER -> [t |-> "unknown"]       \* outside the schema language: the model has no opinion (SerTree = Fail)
 RootBytes(name) ==
@@ -90,6 +92,7 @@ RootBytes(name) ==
       [] name = "F24" -> <<70,50,52>>
       [] name = "F25" -> <<70,50,53>>
       [] name = "F26" -> <<70,50,54>>
+      [] name = "F29" -> <<70,50,57>>
       [] name = "F27" -> <<70,50,55>>
       [] name = "F28" -> <<70,50,56>>
       [] name = "H01" -> <<72,48,49>>
@@ -104,7 +107,7 @@ JKey(f) == IF f.kind = "attr" THEN <<64>> \o f.key ELSE f.key
 ---------------------------------------------------------------------------
 \* value generators.  Strings: round-trippable pool (no leading/trailing XML
 \* whitespace - the deserializer is documented to trim) and hostile additions.
-StrRT == { <<>>, <<97>>, <<60>>, <<38>>, <<34>>, <<39>>, <<97, 32, 98>>, <<195, 169>>, <<93, 93, 62>>, <<38, 97, 109, 112, 59>>, <<45, 45>> }
+StrRT == { <<59, 60>>, <<38, 59, 38>>, <<>>, <<97>>, <<60>>, <<38>>, <<34>>, <<39>>, <<97, 32, 98>>, <<195, 169>>, <<93, 93, 62>>, <<38, 97, 109, 112, 59>>, <<45, 45>> }
 StrSmall == { <<>>, <<97>>, <<60>> }
 StrHostile == StrRT \cup { <<32>>, <<32, 97>>, <<10>>, <<0>>, <<62>>, <<60, 97, 62>> }
 \* items of space-separated lists: non-empty, no XML whitespace (src/de/mod.rs docs)
@@ -171,6 +174,9 @@ ValuesOf(name, Pl, mode) ==       \* mode "rt": the documented round-trippable d
                 Bl == {[b |-> 0], [b |-> 1]} IN
             {O(<<<<<<64>> \o n_flag, a>>, <<<<64>> \o n_ratio, [f |-> r]>>, <<n_ch, S(c)>>, <<n_flag, A(xs)>>, <<<<114>>, [f |-> u]>>>>) :
                 a \in Bl, r \in Fl, c \in {<<97>>, <<60>>, <<38>>, <<195, 169>>, <<34>>}, xs \in Seqs(Bl, 2), u \in Fl}
+      [] name = "F29" -> {O(<<<<n_a, A(xs)>>, <<n_b, A(ys)>>, <<n_d, A(zs)>>>>) :
+                            xs \in Seqs({S(<<97>>)}, 2),
+                            ys \in Seqs({O(<<<<n_b, A(w)>>>>) : w \in {<<S(<<120>>)>>, <<S(<<120>>), S(<<60>>)>>}}, 2), zs \in Seqs({Nm(<<55>>)}, 2)}
       [] name = "H01" -> {O(<<<<n_m, O(ps)>>>>) : ps \in {<<<<k, S(<<97>>)>>>> : k \in {<<>>, <<60>>, <<97, 32, 98>>, <<49, 97>>, <<97>>, <<97, 62>>, <<195, 169>>, <<45, 97>>, <<97, 47>>, <<97, 47, 98>>, <<97, 34>>, <<97, 61>>, <<97, 38>>}}}
       \* outside the schema language (C13 only): Option without skip, nested sequences, unit variants named like markup
       [] name = "H02" -> {O(<<<<<<111>>, x>>, <<<<110>>, A(ys)>>>>) : x \in {None, S(<<60>>)},
@@ -183,5 +189,5 @@ ValuesOf(name, Pl, mode) ==       \* mode "rt": the documented round-trippable d
 \* root tags passed to the serializer (to_string_with_root); the default is the type name
 HostileRoots == { <<97, 47>>, <<97, 47, 98>>, <<>>, <<60>>, <<97, 32, 98>>, <<49, 97>>, <<97, 62>>, <<195, 169>>, <<120, 58, 121>>, <<45, 97>>, <<114>> }
 
-RTTypes == {"F01", "F02", "F03", "F04", "F05", "F07", "F08", "F11", "F15", "F16", "F17", "F18", "F19", "F20", "F22", "F23", "F24", "F25", "F26", "F27", "F28"}
+RTTypes == {"F01", "F02", "F03", "F04", "F05", "F07", "F08", "F11", "F15", "F16", "F17", "F18", "F19", "F20", "F22", "F23", "F24", "F25", "F26", "F27", "F28", "F29"}
 =============================================================================
